@@ -22,9 +22,10 @@ open GV GV.Hull
 
 /-- the translated cross product is the model's -/
 theorem cross_eq (o a b : Pt) : Src.Hull.cross o a b = GV.cross o a b := by
-  unfold Src.Hull.cross GV.cross; rfl
+  unfold Src.Hull.cross GV.cross; ring
 
-/-- the inner `while` of the lower pass -/
+/-- the inner `while` of the lower pass: started on the source list `st.reverse` with fuel ≥ its length it returns
+    (no exception, fuel not exhausted) the list to which appending `p` gives the model's `push st p` -/
 theorem lowerWhile_eq (cs : List Pt) (p : Pt) :
     ∀ (fuel : Nat) (st : List Pt), st.length ≤ fuel →
       ∃ r, Src.Hull.convexHull.loop4 cs p fuel st.reverse = .ok r ∧ r ++ [p] = (push st p).reverse := by
@@ -34,9 +35,7 @@ theorem lowerWhile_eq (cs : List Pt) (p : Pt) :
     intro st h
     have : st = [] := by cases st <;> simp_all
     subst this
-    refine ⟨[], ?_, ?_⟩
-    · simp [Src.Hull.convexHull.loop4]
-    · simp [push]
+    exact ⟨[], by simp [Src.Hull.convexHull.loop4], by simp [push]⟩
   | succ n ih =>
     intro st h
     match st, h with
@@ -48,20 +47,22 @@ theorem lowerWhile_eq (cs : List Pt) (p : Pt) :
         rw [List.reverse_cons]; exact GV.Py.popLast_append_one _ _
       have h1 : GV.Py.negIdx ((a :: b :: rest).reverse) 1 = .ok a := by simp [GV.Py.negIdx]
       have h2 : GV.Py.negIdx ((a :: b :: rest).reverse) 2 = .ok b := by simp [GV.Py.negIdx]
+      have hL : ((a :: b :: rest).reverse).length = rest.length + 2 := by simp
       by_cases hc : GV.cross b a p ≤ 0
       · obtain ⟨r, hr, hp⟩ := ih (b :: rest) hlen
         refine ⟨r, ?_, ?_⟩
         · rw [Src.Hull.convexHull.loop4]
-          simp only [h1, h2, hpop, cross_eq]
-          simpa [hc] using hr
+          simp only [h1, h2, hpop, cross_eq, hL]
+          grind
         · rw [hp, push.eq_def (a :: b :: rest)]; simp [hc]
       · refine ⟨(a :: b :: rest).reverse, ?_, ?_⟩
         · rw [Src.Hull.convexHull.loop4]
-          simp only [h1, h2, hpop, cross_eq]
-          simp [hc]
+          simp only [h1, h2, hpop, cross_eq, hL]
+          grind
         · rw [push.eq_def (a :: b :: rest)]; simp [hc]
 
-/-- the inner `while` of the upper pass -/
+/-- the inner `while` of the upper pass: started on the source list `st.reverse` with fuel ≥ its length it returns
+    (no exception, fuel not exhausted) the list to which appending `p` gives the model's `push st p` -/
 theorem upperWhile_eq (cs lower : List Pt) (p : Pt) :
     ∀ (fuel : Nat) (st : List Pt), st.length ≤ fuel →
       ∃ r, Src.Hull.convexHull.loop3 cs lower p fuel st.reverse = .ok r ∧ r ++ [p] = (push st p).reverse := by
@@ -71,9 +72,7 @@ theorem upperWhile_eq (cs lower : List Pt) (p : Pt) :
     intro st h
     have : st = [] := by cases st <;> simp_all
     subst this
-    refine ⟨[], ?_, ?_⟩
-    · simp [Src.Hull.convexHull.loop3]
-    · simp [push]
+    exact ⟨[], by simp [Src.Hull.convexHull.loop3], by simp [push]⟩
   | succ n ih =>
     intro st h
     match st, h with
@@ -85,17 +84,18 @@ theorem upperWhile_eq (cs lower : List Pt) (p : Pt) :
         rw [List.reverse_cons]; exact GV.Py.popLast_append_one _ _
       have h1 : GV.Py.negIdx ((a :: b :: rest).reverse) 1 = .ok a := by simp [GV.Py.negIdx]
       have h2 : GV.Py.negIdx ((a :: b :: rest).reverse) 2 = .ok b := by simp [GV.Py.negIdx]
+      have hL : ((a :: b :: rest).reverse).length = rest.length + 2 := by simp
       by_cases hc : GV.cross b a p ≤ 0
       · obtain ⟨r, hr, hp⟩ := ih (b :: rest) hlen
         refine ⟨r, ?_, ?_⟩
         · rw [Src.Hull.convexHull.loop3]
-          simp only [h1, h2, hpop, cross_eq]
-          simpa [hc] using hr
+          simp only [h1, h2, hpop, cross_eq, hL]
+          grind
         · rw [hp, push.eq_def (a :: b :: rest)]; simp [hc]
       · refine ⟨(a :: b :: rest).reverse, ?_, ?_⟩
         · rw [Src.Hull.convexHull.loop3]
-          simp only [h1, h2, hpop, cross_eq]
-          simp [hc]
+          simp only [h1, h2, hpop, cross_eq, hL]
+          grind
         · rw [push.eq_def (a :: b :: rest)]; simp [hc]
 
 /-- the `for` loop of the upper pass, followed by `return lower[:-1] + upper` -/
@@ -134,14 +134,11 @@ theorem lowerLoop_eq (cs : List Pt) :
 /-- **the translated `convex_hull` is the model's `hull`** — and never raises (no `IndexError` from `xs[-2]`, `xs[-1]`,
     `pop()`; the inner loops never run out of fuel) -/
 theorem convexHull_eq (pts : List Pt) : Src.Hull.convexHull pts = .ok (hull pts) := by
-  unfold Src.Hull.convexHull hull
-  by_cases h : (sortedSet pts).length ≤ 1
-  · have h' : (Int.ofNat (sortedSet pts).length) ≤ (1 : Int) := by simpa using h
-    simp [h]
-  · have h' : ¬ (Int.ofNat (sortedSet pts).length) ≤ (1 : Int) := by simpa using h
-    have := lowerLoop_eq (sortedSet pts) (sortedSet pts) []
-    simp only [List.reverse_nil] at this
-    simp [h, this, chain]
+  have key := lowerLoop_eq (sortedSet pts) (sortedSet pts) []
+  simp only [List.reverse_nil, chain] at key
+  unfold Src.Hull.convexHull hull chain
+  simp only [key]
+  grind
 
 /-! ### headline theorems of `Props/C10.lean`, restated for the translated source -/
 
